@@ -22,7 +22,7 @@ PLAN = dict(
                     "generators). First failure wins: VIOL class=ill-typed-stage:<stage> | internal-failure:<stage> | "
                     "capture-under-binder (FIXED in /repo by d5d4151; a recurrence is a plain violation: only when the syntactic detector fires, the first ill-typed stage is core "
                     "and the failure is an occurrence resolved to a binder of another chirality/type) | call-to-main-typing "
-                    "(FIXED in /repo by <commitmain>; a recurrence is a plain violation) | main-non-integer-result (FIXED in /repo by 5b8c76f: the checker rejects "
+                    "(FIXED in /repo by f929eb7; a recurrence is a plain violation) | main-non-integer-result (FIXED in /repo by 5b8c76f: the checker rejects "
                     "a main whose return type is not i64; a recurrence is a plain violation). Theorems (no axioms): "
                     "codegen_total for the generic code generator and its x86-64 / AArch64 / RISC-V instances, linearization "
                     "preserves typing, wt_ax -> prog_ok, totality of focusing and shrinking on typed programs, the refutation of "
@@ -38,7 +38,7 @@ PLAN = dict(
                     "C12_fun2core_pre_check (every fun2core output satisfies pre_check, no guard), C12_uniquify_preserves_typing, "
                     "C12_focus_preserves_typing (wt_core + pre_check + xtor_tys_ok + names_le -> wt_fs + unique_binders + ids_bounded + gub), "
                     "C12_focus_names_ok, C12_focus_decls_ok; H_focus_wt and H_fun2core_wt are REFUTED as they stand "
-                    "(C12_focus_preserves_typing_unguarded_refuted; C12_fun2core_preserves_typing_refuted_before_fix by a call of main (repaired by <commitmain>); "
+                    "(C12_focus_preserves_typing_unguarded_refuted; C12_fun2core_preserves_typing_refuted_before_fix by a call of main (repaired by f929eb7); "
                     "C12_regression_old_check_main_result = the former finding main-non-integer-result as a regression theorem about the checker before fix 5b8c76f: "
                     "a main of a non-integer type was accepted and its exit operand ill-typed); C12_pipeline_wt_source composes everything "
                     "from two boolean guards on the SOURCE program only (prog_tyguard, xtor_tys_guard); for programs that come out of the checker the clause main : i64 "
